@@ -23,6 +23,8 @@ FILLERS = [
     " # c\n\n", "\n# c\n\n# d\n", "\r\n", "\r\n\r\n", "\n\x0c\n",
     # comments of both kinds in one gap: a line comment, then a block comment on the line of the next token (and the reverse)
     " # c\n  /* d */ ", "\n/* c */ # d\n",
+    # a comment that touches the previous token (no white space before its opener) / both neighbours
+    "/* c */ ", "/* c */",
 ]
 
 # comment texts whose wording is easy to damage: delimiters' own characters at either end, empty bodies, nested-looking openers,
@@ -46,8 +48,11 @@ ATOMS = ["a", "1", '"s"', "./p", "true", "null", "1.5", "x.y", "[ ]", "{ }"]
 SUBS = ["{ x = 1; }", "[ 1 2 ]", "f x", "(a)", "let y = 1; in y", "x: x", "a + b", "if c then 1 else 2", "''\n  s\n''",
         "{ inherit z; }", "with p; q", "-a", "a ? b", "rec { u = 1; v = u; }", "a.b.c or d", "001",
         # lexical forms with their own node types: search path, home path, escapes and interpolation in both string kinds
-        "<nixpkgs>", "~/x", '"s\\n${a}\\${b}"', "''\n  a ''${b} ${c}\n''", "a != b", "a >= b"]
-QUICK_SUBS = SUBS[:10] + SUBS[16:20]
+        "<nixpkgs>", "~/x", '"s\\n${a}\\${b}"', "''\n  a ''${b} ${c}\n''", "a != b", "a >= b",
+        # an expression that spans several lines by itself (multi-line set, call with a multi-line argument)
+        "{\n  x = 1;\n}", "f {\n  x = 1;\n}"]
+# (the empty list and the empty set are falsy-looking / comment-only containers once a gap filler lands inside them)
+QUICK_SUBS = SUBS[:10] + SUBS[16:20] + ["[ ]", "{ }"] + SUBS[22:24]
 
 # token templates; E = expression hole
 TEMPLATES = {
@@ -61,6 +66,15 @@ TEMPLATES = {
     "inherit_q": '{ inherit "a" b ; }',
     "list": "[ E E E ]",
     "list1": "[ E ]",
+    # empty containers in inner positions (a gap filler between the delimiters makes them comment-only / blank-only)
+    "attrset_elist": "{ a = [ ] ; b = E ; }",
+    "attrset_eset": "{ a = { } ; }",
+    "apply_elist": "f [ ] E",
+    "lambda_elist": "a : [ ]",
+    "let_elist": "let a = [ ] ; in [ ]",
+    "list_elist": "[ E [ ] { } ]",
+    # a list whose one-line rendering is wider than the 100-column threshold of the layout code
+    "list_wide": "{ a = [ a23456789012345678901234567890123456789012345678901234567890 b23456789012345678901234567890123456789012345678901234567890 ] ; }",
     "let": "let a = E ; b = E ; in E",
     "let_empty": "let in E",
     "let_inherit": "let inherit ( E ) a ; in E",
@@ -507,7 +521,7 @@ def filler_class(f):
     kind = ("mixed" if "#" in f and "/*" in f else "line" if "#" in f else "doc" if "/**" in f else "block-multi" if ("/*" in f and "\n" in f.split("/*")[1].split("*/")[0])
             else "block" if "/*" in f else None)
     if kind:
-        return f"comment-{kind}-" + ("own" if f.startswith("\n") else "inline")
+        return f"comment-{kind}-" + ("own" if f.startswith("\n") else "touching" if f.startswith("/") else "inline")
     return ("blank2" if f.count("\n") >= 3 else "blank" if f.count("\n") == 2 else "newline-indent" if f.startswith("\n") and len(f) > 1
             else "newline" if f == "\n" else "tab" if "\t" in f else "spaces" if len(f) > 1 else "space" if f == " " else "none")
 
